@@ -354,7 +354,7 @@ func (w *World) pathDepth(v ssa.Value, depth int) string {
 				}
 			}
 		}
-		return "p:" + x.Name()
+		return "p:" + w.paramName(x)
 	case *ssa.FreeVar:
 		if b := freeVarBinding(x); b != nil {
 			return w.pathDepth(b, d)
@@ -490,9 +490,46 @@ func fieldName(t types.Type, idx int) string {
 		t = p.Elem()
 	}
 	if s, ok := t.Underlying().(*types.Struct); ok && idx < s.NumFields() {
+		// a field renamed in place (same struct, same position, same type) keeps
+		// the name the rules know
+		if named, isNamed := t.(*types.Named); isNamed && theWorld != nil && named.Obj().Pkg() != nil && named.Obj().Pkg().Path() == modulePath {
+			if base, ok := baselineFields[named.Obj().Name()]; ok && len(base) == s.NumFields() {
+				same := true
+				for i := 0; i < s.NumFields(); i++ {
+					bn, bt, _ := strings.Cut(base[i], ":")
+					_ = bn
+					if theWorld.typeName(s.Field(i).Type()) != bt {
+						same = false
+					}
+				}
+				if same {
+					bn, _, _ := strings.Cut(base[idx], ":")
+					return bn
+				}
+			}
+		}
 		return s.Field(idx).Name()
 	}
 	return fmt.Sprintf("#%d", idx)
+}
+
+// paramName: the name the confirmed tree gave the parameter at this position
+// (when the function still has the same number of parameters), else its own.
+func (w *World) paramName(x *ssa.Parameter) string {
+	fn := x.Parent()
+	if fn == nil || fn.Parent() != nil {
+		return x.Name()
+	}
+	base, ok := baselineParams[w.name(fn)]
+	if !ok || len(base) != len(fn.Params) {
+		return x.Name()
+	}
+	for i, p := range fn.Params {
+		if p == x {
+			return base[i]
+		}
+	}
+	return x.Name()
 }
 
 // structFieldOf reports the owning struct's name and field name when v is a
